@@ -284,7 +284,7 @@ def run(res, a):
     elif not last.startswith("INJ=none"):
         res.violations.append(("plaintext-behind-finish", {"property": ID, "family": "stack", "seed": res.seed, "case": inj["line"], "implementation_observed": o[-200:],
                                "required": "the scenario must run (harness failure?)", "failing_input_found": False, "replay": "python3 tools/check.py C05 --replay <this file>"}))
-    res.obligations.append(("implementation-side run: plaintext requests behind a genuine pair-verify finish (recorded finding when served)", True, last))
+    res.obligations.append(("implementation-side run: plaintext requests behind a genuine pair-verify finish are never served", last.startswith("INJ=none"), last))
 
 
 class Counter:
